@@ -111,8 +111,7 @@ def c20_tls(R):
     ctx = util.methods_of(cls)["_context"]
     Fx = util.Frags(ctx)
     R.check(
-        Fx.has("main_thread = threading.current_thread() == threading.main_thread()")
-        and Fx.has("self._tls.context = z3.Context() if not main_thread else z3.main_ctx()"),
+        Fx.has("main_thread = threading.current_thread() == threading.main_thread()\nself._tls.context = z3.Context() if not main_thread else z3.main_ctx()"),
         m,
         ctx,
         "every non-main thread gets a fresh z3.Context",
